@@ -116,6 +116,13 @@ def cases(draw, depth):
         where = draw(st.sampled_from(("", f" WHERE {c0} > 0", " WHERE k > 1")))
         tail = draw(st.sampled_from((" GROUP BY k", " GROUP BY k HAVING COUNT(*) > 0", " GROUP BY k ORDER BY k", " GROUP BY 1")))
         sql = f"SELECT {c0} + 1 AS k, COUNT(*) AS n FROM {t1} AS x1{where}{tail}"
+        if draw(st.integers(0, 2)) == 0:
+            # an output name that is also an input column, used INSIDE an aggregate of an ORDER BY term: there it can only be the input
+            # column (SQL allows output names in ORDER BY only as whole terms), so it must come back qualified
+            term = draw(st.sampled_from((f"SUM({c0})", f"- SUM({c0})", f"SUM({c0}) + 1", f"COALESCE(MAX({c0}), 0)", f"MIN({c0}) * 2 DESC", f"{c0}", f"COUNT({c0}) + COUNT(*)")))
+            sql = f"SELECT {c1} AS {c0}, COUNT(*) AS n FROM {t1} AS x1 GROUP BY {c1} ORDER BY {term}"
+            feats.append("aliasref:aggregate-in-order")
+            return {"sql": sql, "tables": tables, "dialect": draw(st.sampled_from(("duckdb", "duckdb", d))), "kind": kind, "features": feats, "ordered": False, "bare": 1}
         return {"sql": sql, "tables": tables, "dialect": "duckdb" if "k > 1" in where else d, "kind": kind, "features": feats, "ordered": False, "bare": 1}
     if kind == "ctecols":
         c0, c1 = COLS[t1][0], COLS[t1][1]
@@ -238,6 +245,9 @@ def check_case(case, res=None):
                     break
     for col in q1.find_all(exp.Column):
         if col.find_ancestor(exp.Order) and not col.table:
+            if col.find_ancestor(exp.AggFunc) is not None and col.find_ancestor(exp.AggFunc).find_ancestor(exp.Order) is not None and not col.find_ancestor(exp.Window):
+                fails.append((f"column-without-table-under-aggregate-in-order|{case['kind']}", f"{d or 'base'} {sql!r} -> {q1.sql(dd)!r}: {col.sql()}"))
+                break
             continue  # ORDER BY may name an output column
         if isinstance(col.parent, exp.Join) or col.find_ancestor(exp.Join) and col.arg_key == "using":
             continue
